@@ -76,7 +76,11 @@ def run(ctx):
              # cells without coordinates AND a self-intersecting cell in one dataset
              ('cf2d', dict(ny=3, nx=4, holes='edge', bounds=True, invalid=True)),
              ('cf2d', dict(ny=4, nx=3, holes='corner', bounds=True, invalid=True)),
-             ('shoc_standard', dict(nj=3, ni=4, holes='edge', invalid=True))]
+             ('shoc_standard', dict(nj=3, ni=4, holes='edge', invalid=True)),
+             # corners derived from the centres (no bounds stored) around one-cell-wide channels: those cells have no geometry
+             ('cf2d', dict(ny=5, nx=4, holes='river', bounds=False, invalid=False)),
+             ('cf2d', dict(ny=4, nx=5, holes='river_i', bounds=False, invalid=False)),
+             ('shoc_simple', dict(ny=4, nx=4, holes='river', bounds=False, invalid=False))]
     datasets = [gen.any_dataset(rng, f, **kw) for f, kw in fixed]
     while len(datasets) < n_ds:
         datasets.append(gen.any_dataset(rng))
